@@ -45,7 +45,7 @@ type Run struct {
 	nontrivial  bool
 	History     []interface{}
 	Sample      interface{}
-	Sub         map[string]int // sub-space visits (name -> item index)
+	Sub         map[string][]int // sub-space visits (name -> item indices)
 	cleanup     []func()
 }
 
@@ -54,6 +54,9 @@ func (r *Run) ProbeN(name string, n int) {
 	r.Probes[name] += n
 }
 func (r *Run) Fault(name string) { r.Faults[name]++ }
+func (r *Run) Visit(space string, idx int) {
+	r.Sub[space] = append(r.Sub[space], idx)
+}
 
 func (r *Run) Mix(s string) {
 	if r.hash == 0 {
@@ -144,7 +147,7 @@ func propIDs() []string {
 func execute(p *PropDef, r *Run) (err error) {
 	r.Probes = map[string]int{}
 	r.Faults = map[string]int{}
-	r.Sub = map[string]int{}
+	r.Sub = map[string][]int{}
 	defer func() {
 		for i := len(r.cleanup) - 1; i >= 0; i-- {
 			func() {
